@@ -146,8 +146,9 @@ def exhaustive_histories(L):
 
 # witnesses of the Lean counterexample theorems / recorded findings: (ndirs, checks, size, moddir, history)
 CORPUS = [
-    (2, True, -1, True, "w1.0.1;t1;w0.0.2;g0;t1;d0.0;g0;g0;t5;g0"),          # module file of the URI outlives its source
-    (1, True, -1, True, "w0.0.1;g0;t1;w0.0.3;t1;w0.1.4;g1;p1.0;g1"),          # fresh_counterexample (alias via put_template)
+    (2, True, -1, True, "w1.0.1;t1;w0.0.2;g0;t1;d0.0;g0;g0;t5;g0"),          # repaired b4d0d5f: module of the URI outlived its source
+    (1, True, -1, True, "w0.0.1;g0;t1;w0.0.3;t1;w0.1.4;g1;p1.0;g1"),          # repaired b4d0d5f: fresh_former_witness (alias via put_template)
+    (1, True, -1, True, "w0.0.1;g0;t1;w0.0.2;g0;w0.0.3;p0.0;g0"),             # fresh_same_second_put_template_witness
     (1, True, 1, False, "s0.7;s1.8;g0"),                                      # LRU drops a put_string entry
     (2, True, 1, False, "w1.0.5;w0.1.9;g0;t1;w0.0.6;t1;g1;g0"),               # eviction un-shadows directory 0
     (1, True, 1, False, "w0.0.1;w0.1.9;g0;w0.0.2;g1;g0"),                     # eviction refreshes within the grace second
@@ -328,19 +329,7 @@ class Real:
 
 
 def ask_many(ctx, lines):
-    """driver batch; the shared driver binary may be re-linked by a concurrent build: retry under the build lock"""
-    import time
-    from harness import common
-    for attempt in range(6):
-        try:
-            return ctx.driver().ask_many(lines)
-        except (FileNotFoundError, PermissionError, OSError, common.LeanError) as e:
-            if attempt == 5:
-                raise
-            ctx.log("driver not available (%r), waiting for the build lock" % (e,))
-            time.sleep(1 + attempt)
-            lk = common._lock()
-            lk.close()
+    return ctx.driver().ask_many(lines)
 
 
 def model_line(ndirs, checks, size, moddir, history):
